@@ -20,6 +20,7 @@ RULE = (
     "from diffusion / from w / split between both x scheme x flow that does or does not carry the particle into the neighbour cell x 2 steps; "
     "both switches off: Z bit-identical; non-trivial = a displacement that crosses the surface or the bottom; lattice points distinct by construction"
 )
+RULE += " Beyond the lattice (chosen scenarios, not enumerated): a 200x220 grid; one random value per step so that the oracle is independent of how the tracker draws."
 ASSUMPTIONS = ["|vertical displacement| < h (the statement's condition)", "bottom depth of the cell occupied when the step began"]
 
 S0 = world.tosec("2020-01-01T00:00:00")
